@@ -63,4 +63,9 @@ func init() {
 		ruleEffectGlobal(p, r)
 		ruleOwnFresh(p, r, "mxj.Map.Copy")
 	})
+
+	register("PANt", "temporary", nil, func(p *Prog, r *Report) {
+		rulePanicAssert(p, r, p.FuncList)
+		rulePanicIdx(p, r, "mxj", ".", nil)
+	})
 }
